@@ -24,7 +24,8 @@ RULE = (
     "declared bounds, with the bin-count conversion, with earlier values of the "
     "same pair, and - across packings - with the dominance clause. Non-trivial = "
     "at least two evaluations on one shared objective object with a different "
-    "packing or a scribble in between; distinct = distinct scenario digests.")
+    "packing or a scribble in between; distinct = distinct scenario digests."
+    ' The caller may re-use the item matrix it handed to the Instance constructor. Violations that need scribbled private arrays count only if the history without those scribbles shows them too.')
 COMPONENTS = {
     "real": ["BinCount, BinCountAndLastEmpty, BinCountAndEmpty, "
              "BinCountAndLastSmall, BinCountAndSmall, BinCountAndLastSkyline, "
